@@ -10,14 +10,12 @@ import (
 	"sort"
 	"strings"
 
-	"github.com/spf13/viper"
 	v1export "go.opentelemetry.io/proto/otlp/collector/metrics/v1"
 	v1common "go.opentelemetry.io/proto/otlp/common/v1"
 	v1metrics "go.opentelemetry.io/proto/otlp/metrics/v1"
 	"google.golang.org/protobuf/proto"
 
 	"github.com/atlassian/gostatsd"
-	"github.com/atlassian/gostatsd/pkg/backends/otlp"
 )
 
 type otlpCfg struct {
@@ -324,7 +322,7 @@ func decodeOTLP(body []byte) (recs []rec, metrics int, malformed string) {
 	return recs, metrics, ""
 }
 
-func setOTLPDisabled(v *viper.Viper, d gostatsd.TimerSubtypes) {
+func setOTLPDisabled(v *cfg, d gostatsd.TimerSubtypes) {
 	set := func(k string, b bool) {
 		if b {
 			v.Set("otlp.disabled_timer_aggregations."+k, true)
@@ -381,7 +379,7 @@ func runOTLP(e *env, cs *caseRef, w *workload, rng *rand.Rand) {
 		c.ResourceKeys = []string{"svc", "svcx"}
 	}
 	cs.Config = c
-	v := viper.New()
+	v := newCfg()
 	v.Set("otlp.metrics_endpoint", e.sink.url()+"/v1/metrics")
 	v.Set("otlp.logs_endpoint", e.sink.url()+"/v1/logs")
 	if c.Conversion != "" {
@@ -397,7 +395,7 @@ func runOTLP(e *env, cs *caseRef, w *workload, rng *rand.Rand) {
 		v.Set("otlp.resource_keys", c.ResourceKeys)
 	}
 	setOTLPDisabled(v, w.Disabled)
-	be, err := otlp.NewClientFromViper(v, e.logger, e.pool)
+	be, err := e.initBackend(cs, "otlp", v, rng)
 	if err != nil {
 		e.r.Inconclusive("otlp:factory-error")
 		return
